@@ -58,8 +58,13 @@ func verifRoundTrip(v *vrt.T, text string) {
 // VerifC13Literal: parse(format(parse(x))) == parse(x) and formatting is stable, for x =
 // context ++ N arbitrary bytes.
 func VerifC13Literal(v *vrt.T) {
-	c := verifFmtCtxs[v.Choose("ctx", len(verifFmtCtxs))]
-	n := v.Choose("n", v.Bound("bytes", 2)+1)
+	ci := v.Choose("ctx", len(verifFmtCtxs))
+	c := verifFmtCtxs[ci]
+	maxN := v.Bound("bytes", 2)
+	if ci >= v.Bound("deep_ctxs", len(verifFmtCtxs)) && maxN > 2 {
+		maxN = 2 // only the first deep_ctxs contexts get more than two arbitrary bytes
+	}
+	n := v.Choose("n", maxN+1)
 	s := v.String("s", n)
 	if c.noFloat {
 		// float literals with symbolic digits would need strconv's shortest-float formatting
